@@ -779,7 +779,7 @@ loop:
 				// HEADERS frame and streams that are reserved using PUSH_PROMISE.
 				if fr.Type() == FrameHeaders {
 					openStreams++
-					sc.lastID = fr.Stream()
+					atomic.StoreUint32(&sc.lastID, fr.Stream())
 				}
 
 				sc.createStream(sc.c, fr.Type(), strm)
@@ -976,7 +976,16 @@ func (sc *serverConn) writeGoAway(strm uint32, code ErrorCode, message string) {
 
 	fr := AcquireFrameHeader()
 
-	ga.SetStream(strm)
+	// The last-stream-id tells the peer which requests may have been acted on
+	// and must not be replayed blindly (RFC 7540 6.8): never less than the
+	// highest stream the stream loop has opened, whatever stream the error is
+	// about.
+	last := strm
+	if opened := atomic.LoadUint32(&sc.lastID); opened > last {
+		last = opened
+	}
+
+	ga.SetStream(last)
 	ga.SetCode(code)
 	ga.SetData([]byte(message))
 
